@@ -118,6 +118,7 @@ func TestReplay_MCP(t *testing.T) {
 		}
 	}
 	replayMCLI()
+	replayMHash()
 	for _, rf := range verifkit.ReplayFiles("TestProp_C18_MCPApply") {
 		var c M18Case
 		if err := json.Unmarshal(rf.Case, &c); err != nil {
